@@ -454,6 +454,7 @@ func init() {
 		"strings.Fields":    extFields,
 		"strings.HasPrefix": extHasPrefix,
 		"strconv.ParseFloat": extParseFloat,
+		"strconv.FormatFloat": extFormatFloat,
 		"(*bytes.Buffer).WriteString": extBufWriteString,
 		"(*bytes.Buffer).String":      extBufString,
 		"sort.Strings":      extSortStrings,
@@ -900,7 +901,10 @@ func extParseFloat(fr *frame, args []value) value {
 		if mm := sextRe.FindStringSubmatch(e); mm != nil {
 			e = mm[1]
 		}
-		return tuple{&sym{e: "((_ to_fp 11 53) RNE " + e + ")", k: symFP}, iface{}}
+		return tuple{withOrigin(&sym{e: "((_ to_fp 11 53) RNE " + e + ")", k: symFP}, ns.n), iface{}}
+	}
+	if fs, ok := args[0].(fpstr); ok {
+		return tuple{fs.f, iface{}}
 	}
 	s, ok := args[0].(string)
 	if !ok {
@@ -914,6 +918,51 @@ func extParseFloat(fr *frame, args []value) value {
 		return tuple{f, iface{t: types.NewPointer(et), v: &obj}}
 	}
 	return tuple{f, iface{}}
+}
+
+var sextWRe = regexp.MustCompile(`^\(\(_ sign_extend (\d+)\) `)
+
+// exactOrigin: if converting the signed integer term n to a double is exact for every value (at most 53
+// significant bits) it returns n widened to 64 bits and that number of bits, else nil.
+func exactOrigin(n *sym) (*sym, int) {
+	if n.k != symBV {
+		return nil, 0
+	}
+	if _, signed := kindWidth(n.gk); !signed {
+		return nil, 0
+	}
+	w := n.w
+	if mm := sextWRe.FindStringSubmatch(n.e); mm != nil {
+		ext, _ := strconv.Atoi(mm[1])
+		w -= ext
+	}
+	if w > 53 {
+		return nil, 0
+	}
+	o := n
+	if o.w < 64 {
+		o = symConv(types.Int64, o).(*sym)
+	}
+	return o, w
+}
+
+func withOrigin(f *sym, n *sym) *sym {
+	f.origin, f.ow = exactOrigin(n)
+	return f
+}
+
+func extFormatFloat(fr *frame, args []value) value {
+	f, ok := args[0].(*sym)
+	if !ok {
+		return strconv.FormatFloat(args[0].(float64), args[1].(byte), args[2].(int), args[3].(int))
+	}
+	if fm, ok1 := args[1].(uint8); !ok1 || fm != 'f' || args[2] != -1 || args[3] != 64 {
+		panic(unsupported("strconv.FormatFloat of a symbolic double in a format other than ('f', -1, 64)"))
+	}
+	if f.origin != nil {
+		return numstr{f.origin} // the text of an exactly converted integer is that integer's decimal text
+	}
+	return fpstr{f}
 }
 
 func extAtoi(fr *frame, args []value) value {
